@@ -49,7 +49,7 @@ theorem sibs_shape {f : Forest} (nd : f.allHandles.Nodup) {c p n : Nat} {path l 
       · cases hp
 
 /-- The gap: `a` sits between the text nodes `P` and `N` in strict mode. -/
-structure Gap (f : Forest) (a : Nat) (init : List Frame) (fr : Frame) (l0 : List HTree) (P A N : HTree)
+structure Gap (f : Forest) (a : Nat) (init : List ZipFrame) (fr : ZipFrame) (l0 : List HTree) (P A N : HTree)
     (r0 : List HTree) (ps ns : Str) : Prop where
   loc : Loc f.roots a (init ++ [fr]) (l0 ++ [P]) A (N :: r0)
   strict : f.everOff = false
@@ -106,7 +106,7 @@ theorem gap_of_textGap {f : Forest} (hi : f.Inv) {a : Nat} (hg : f.textGap a = t
     kids_nil_of_text k2'.1.2 hPt, kids_nil_of_text k2'.2.2.1 hNt, hAn, hAt, hAd⟩
 
 section gap
-variable {f : Forest} {a : Nat} {init : List Frame} {fr : Frame} {l0 : List HTree} {P A N : HTree}
+variable {f : Forest} {a : Nat} {init : List ZipFrame} {fr : ZipFrame} {l0 : List HTree} {P A N : HTree}
   {r0 : List HTree} {ps ns : Str}
 
 theorem Gap.hPt (g : Gap f a init fr l0 P A N r0 ps ns) : P.value.isText = true := by rw [g.hP]; rfl
@@ -146,7 +146,7 @@ theorem Gap.locP1 (g : Gap f a init fr l0 P A N r0 ps ns) (nd : f.allHandles.Nod
 
 theorem Gap.mem (g : Gap f a init fr l0 P A N r0 ps ns) : a ∈ f.allHandles := by
   unfold allHandles; rw [g.loc.eq, mem_handlesList_plug]; right
-  simp only [fi_handlesList_append, handlesList_cons, List.mem_append]
+  simp only [fi_handlesList_append, fi_handlesList_cons, List.mem_append]
   exact Or.inr (Or.inl (g.loc.hk ▸ fi_handle_mem_handles A))
 
 /-- `b` is not adjacent to `a`: its neighbours are the same after `a` has been taken out. -/
